@@ -898,10 +898,12 @@ func main() {
 		join()
 	case "C16send":
 		r.prop = "C16"
+		joinStall := r.stalledPeerProbe(2600 * time.Millisecond)
 		r.c16send(*budget)
 		r.c16router(*budget / 3)
 		r.c16hostinfo()
 		r.c16closePending()
+		joinStall()
 	case "C01live":
 		r.prop = "C01"
 		r.c01live(*budget)
